@@ -285,10 +285,12 @@ impl Harness for C08 {
             lattice_jobs(&mut jobs, "enet", 1, 4, 4, 2, "noshift", "zerosum", false);
             lattice_jobs(&mut jobs, "lasso", 2, 3, 4, 3, "full", "free", false);
             lattice_jobs(&mut jobs, "enet", 2, 3, 4, 3, "noshift", "zerosum", false);
-            lattice_jobs(&mut jobs, "lasso", 2, 4, 3, 4, "full", "free", false);
+            lattice_jobs(&mut jobs, "lasso", 2, 4, 3, 5, "full", "free", false);
             lattice_jobs(&mut jobs, "enet", 2, 4, 3, 4, "noshift", "zerosum", false);
-            lattice_jobs(&mut jobs, "lasso", 3, 4, 2, 5, "diag", "free", false);
-            lattice_jobs(&mut jobs, "enet", 3, 4, 2, 5, "noshift1", "zerosum", false);
+            lattice_jobs(&mut jobs, "lasso", 2, 5, 2, 6, "full", "free", false);
+            lattice_jobs(&mut jobs, "enet", 2, 5, 2, 4, "noshift", "zerosum", false);
+            lattice_jobs(&mut jobs, "lasso", 3, 4, 2, 7, "full", "free", false);
+            lattice_jobs(&mut jobs, "enet", 3, 4, 2, 5, "noshift", "zerosum", false);
         }
         // ---- structured families (p <= 6, n <= 60); one job per (family, p, chunk of n values)
         let fam_ns = |p: usize| -> Vec<Vec<usize>> {
@@ -361,7 +363,7 @@ impl Harness for C08 {
             ],
             bounds: json!({
                 "lattice_lasso": if t {
-                    "every X over S4={0,1,-1,2} (no constant column) for (p,n) in {(1,2),(1,3),(1,4),(2,3)}, over S3={0,1,-1} for (2,4), over {0,1} for (3,4); every y over {0,1,-2,3}^n; alpha {0.1,1,1e-3,10} x normalize {on,off} x tol {1e-4,1e-3,1e-6} x shift {0,10,1e4} (p=3: tol and shift paired)"
+                    "every X over S4={0,1,-1,2} (no constant column) for (p,n) in {(1,2),(1,3),(1,4),(2,3)}, over S3={0,1,-1} for (2,4), over {0,1} for (2,5) and (3,4); every y over {0,1,-2,3}^n; alpha {0.1,1,1e-3,10} x normalize {on,off} x tol {1e-4,1e-3,1e-6} x shift {0,10,1e4}"
                 } else {
                     "every X over S4={0,1,-1,2} (no constant column) for (p,n) in {(1,2),(1,3)}, over S3={0,1,-1} for (2,3); every y over {0,1,-2,3}^n; alpha {0.1,1,1e-3,10} x normalize {on,off} x tol {1e-4,1e-3,1e-6} x shift {0,10,1e4} (p=2: tol and shift paired)"
                 },
